@@ -134,6 +134,16 @@ def g_c10(multi):
                 if aspect == 'stats' and shim < 2 and k >= 2:
                     continue          # the real (crashing) statistics functions: first two experiments of each part only
                 yield 'C10.excel', {'aspect': aspect, 'shim': shim, 'spec': spec}
+        if not multi:
+            # several rows reporting the same channel in the same units spelling on float data (every row has its own library
+            # bin edges: range and most negative event differ): the histogram lines of a row must come from that row's sample
+            for dt in ('F', 'D'):
+                spec = make_experiment(rnd, deck, 1, 0, 3, [dt])
+                fl = [c for c in spec['units_columns']]
+                for k, smp in enumerate(spec['samples']):
+                    smp['units'] = {c: ('a.u.' if c == fl[0] else (None if len(fl) < 2 or c != fl[1] else 'RFI')) for c in smp['units']}
+                    smp['data']['n'] = [2000, 700, 1200][k]
+                yield 'C10.excel', {'aspect': 'hist', 'shim': 0, 'spec': spec}
     return gen
 
 
